@@ -8,7 +8,7 @@ Definition marked (c : content) : bool := isSomeV (get KMark c).
 (* ---- specification level ---- *)
 Lemma spec_step_init_mono : forall s o, sinit s = true -> sinit (spec_step s o) = true.
 Proof.
-  intros s o H. destruct o as [i v|i v|i|sd]; cbn [spec_step].
+  intros s o H. destruct o as [i v|i v|i|sd|n]; cbn [spec_step]; [| | | |exact H].
   - destruct (is_nil i); [exact H|]. destruct (sval s i); exact H.
   - destruct (sval s i); exact H.
   - destruct (sval s i); exact H.
@@ -24,7 +24,7 @@ Qed.
 Lemma spec_step_absent : forall s o i, sinit s = true -> sval s i = None -> creates i [o] = false ->
   sval (spec_step s o) i = None.
 Proof.
-  intros s o i Hi Hn Hc. destruct o as [j v|j v|j|sd]; cbn [spec_step creates] in *.
+  intros s o i Hi Hn Hc. destruct o as [j v|j v|j|sd|n]; cbn [spec_step creates] in *; [| | | |exact Hn].
   - rewrite orb_false_r in Hc. destruct (is_nil j); [exact Hn|].
     destruct (sval s j); [exact Hn|]. cbn [sset sval]. rewrite Hc. exact Hn.
   - destruct (sval s j) eqn:E; [|exact Hn]. cbn [sset sval].
@@ -74,7 +74,8 @@ Proof. intros. unfold marked. rewrite get_remove. reflexivity. Qed.
 Lemma compile_op_marked : forall c o, marked c = true ->
   init_commits (cl_vis (fst (compile_op c o))) = [] /\ marked (snd (compile_op c o)) = true.
 Proof.
-  intros c o H. destruct o as [i v|i v|i|sd]; cbn [compile_op].
+  intros c o H. destruct o as [i v|i v|i|sd|n]; cbn [compile_op];
+    [| | | |unfold marked in H; rewrite H; split; [reflexivity|exact H]].
   - destruct (is_nil i); [split; [reflexivity|exact H]|].
     destruct (get (KVal i) c); [split; [reflexivity|exact H]|].
     split; [reflexivity|]. cbn. rewrite marked_put_val. exact H.
@@ -135,34 +136,60 @@ Proof.
   apply creates_firstn. exact Hc.
 Qed.
 
-Lemma life_unmarked : forall g c seeds w sched t,
+Lemma compile_op_failing : forall c o, marked c = false -> failing_init o ->
+  cl_vis (fst (compile_op c o)) = [EAck false] /\ snd (compile_op c o) = c.
+Proof.
+  intros c o Hm Hf. unfold marked in Hm. destruct o as [i v|i v|i|sd|n]; cbn [failing_init] in Hf; try (exfalso; exact Hf).
+  - cbn [compile_op]. rewrite Hm, Hf. cbn. split; reflexivity.
+  - cbn [compile_op]. rewrite Hm. cbn [fst snd]. rewrite cl_vis_app, cl_vis_hits. split; reflexivity.
+Qed.
+
+(* the client's visible events of a lifetime "failing Inits, Init seeds, workload" on an
+   uninitialised store without values, cut anywhere *)
+Lemma unmarked_prefix : forall f, Forall failing_init f -> forall c seeds w P,
   valid_seeds seeds = true -> marked c = false -> (forall i, get (KVal i) c = None) ->
-  let tr := life_trace g c (Init seeds :: w, sched, t) in
+  prefix_of P (cl_vis (compile c (f ++ Init seeds :: w))) ->
+  (commits P = [] /\ init_commits P = []) \/
+  (marked (reopen c (commits P)) = true /\ init_commits P = [init_ws seeds]).
+Proof.
+  intros f Hf. induction Hf as [|o f Ho Hf IH]; intros c seeds w P Hv Hm Hn HP.
+  - cbn [app] in HP. rewrite compile_cons, cl_vis_app in HP.
+    destruct (compile_init_unmarked c seeds Hm Hv) as [Hs Hc]. rewrite Hs, Hc in HP.
+    rewrite (created_all c seeds Hn) in HP.
+    set (c1 := apply_ws c (init_ws seeds)) in *.
+    assert (Hm1 : marked c1 = true).
+    { subst c1. rewrite <- (created_all c seeds Hn) at 1. apply marked_after_init. exact Hv. }
+    apply prefix_of_cons_inv in HP. destruct HP as [->|[P1 [-> HP1]]]; [left; split; reflexivity|].
+    right. cbn [init_commits commits]. rewrite reopen_cons. fold c1.
+    apply prefix_of_cons_inv in HP1. destruct HP1 as [->|[P' [-> HP']]].
+    + split; [exact Hm1|reflexivity].
+    + cbn [commits init_commits]. split.
+      * destruct (client_prefix_spec w c1 P' HP') as [j [_ [_ [_ Hq]]]].
+        cbn [abs sinit] in Hq. unfold marked. rewrite Hq. apply spec_run_init_mono. exact Hm1.
+      * rewrite (init_commits_prefix_nil P' _ HP' (compile_marked_no_init w c1 Hm1)). reflexivity.
+  - cbn [app] in HP. rewrite compile_cons, cl_vis_app in HP.
+    destruct (compile_op_failing c o Hm Ho) as [Hs Hc]. rewrite Hs, Hc in HP.
+    apply prefix_of_cons_inv in HP. destruct HP as [->|[P' [-> HP']]]; [left; split; reflexivity|].
+    cbn [commits init_commits]. apply (IH c seeds w P' Hv Hm Hn HP').
+Qed.
+
+Lemma life_unmarked : forall g c seeds f w sched t,
+  Forall failing_init f ->
+  valid_seeds seeds = true -> marked c = false -> (forall i, get (KVal i) c = None) ->
+  let tr := life_trace g c (f ++ Init seeds :: w, sched, t) in
   (marked (durable c tr) = false /\ init_commits tr = [] /\ forall i, get (KVal i) (durable c tr) = None) \/
   (marked (durable c tr) = true /\ init_commits tr = [init_ws seeds]).
 Proof.
-  intros g c seeds w sched t Hv Hm Hn tr. subst tr. cbn [life_trace].
-  set (tr := firstn t (trace (run g c (Init seeds :: w) sched))).
+  intros g c seeds f w sched t Hf Hv Hm Hn tr. subst tr. cbn [life_trace].
+  set (tr := firstn t (trace (run g c (f ++ Init seeds :: w) sched))).
   assert (Hok : Forall (ev_ok g) tr) by (apply Forall_firstn, run_ok).
-  pose proof (killed_vis_prefix g c (Init seeds :: w) sched t) as HP. fold tr in HP.
-  rewrite compile_cons, cl_vis_app in HP.
-  destruct (compile_init_unmarked c seeds Hm Hv) as [Hs Hc]. rewrite Hs, Hc in HP.
-  rewrite (created_all c seeds Hn) in HP.
-  set (c1 := apply_ws c (init_ws seeds)) in *.
-  assert (Hm1 : marked c1 = true).
-  { subst c1. rewrite <- (created_all c seeds Hn) at 1. apply marked_after_init. exact Hv. }
+  pose proof (killed_vis_prefix g c (f ++ Init seeds :: w) sched t) as HP. fold tr in HP.
   unfold marked. rewrite (durable_vis g c tr KMark eq_refl Hok). rewrite <- init_commits_vis.
-  apply prefix_of_cons_inv in HP. destruct HP as [HP|[P1 [HP HP1]]]; rewrite HP.
-  - left. split; [exact Hm|]. split; [reflexivity|].
-    intro i. rewrite (durable_vis g c tr (KVal i) eq_refl Hok), HP. apply Hn.
-  - right. cbn [init_commits]. unfold durable. cbn [commits]. rewrite reopen_cons. fold c1.
-    apply prefix_of_cons_inv in HP1. destruct HP1 as [->|[P' [-> HP']]].
-    + split; [exact Hm1|reflexivity].
-    + cbn [commits init_commits].
-      split.
-      * destruct (client_prefix_spec w c1 P' HP') as [j [_ [_ [_ Hq]]]].
-        cbn [abs sinit] in Hq. rewrite Hq. apply spec_run_init_mono. exact Hm1.
-      * rewrite (init_commits_prefix_nil P' _ HP' (compile_marked_no_init w c1 Hm1)). reflexivity.
+  destruct (unmarked_prefix f Hf c seeds w (vis tr) Hv Hm Hn HP) as [[H1 H2]|[H1 H2]].
+  - left. split; [|split; [exact H2|]].
+    + unfold durable. rewrite H1. exact Hm.
+    + intro i. rewrite (durable_vis g c tr (KVal i) eq_refl Hok). unfold durable. rewrite H1. apply Hn.
+  - right. split; [exact H1|exact H2].
 Qed.
 
 (* ---- sequences of lifetimes ---- *)
@@ -184,9 +211,9 @@ Proof.
   intros g seeds ls. induction ls as [|l r IH]; intros c Hv Hf Hm Hn.
   - left. cbn. auto.
   - inversion Hf as [|x y Hl Hr]. subst. destruct l as [[ops sched] t].
-    destruct Hl as [w Hw]. cbn [fst] in Hw. subst ops.
+    destruct Hl as [f [w [Hw Hff]]]. cbn [fst] in Hw. subst ops.
     cbn [trace_all run_all]. rewrite init_commits_app.
-    destruct (life_unmarked g c seeds w sched t Hv Hm Hn) as [[H1 [H2 H3]]|[H1 H2]]; rewrite H2.
+    destruct (life_unmarked g c seeds f w sched t Hff Hv Hm Hn) as [[H1 [H2 H3]]|[H1 H2]]; rewrite H2.
     + cbn [app]. apply IH; assumption.
     + right. destruct (all_marked g r _ H1) as [H4 H5]. rewrite H4. split; [exact H5|reflexivity].
 Qed.
